@@ -584,6 +584,32 @@ def temp_buf_dataflow(ctx, rule, which):
 
 
 # ------------------------------------------------------------------ R08.3b / R03.6b  sibling gates
+def wrapper_fast_path_gate(ctx, rule, which):
+    """pop_except_from (the tokenizer's wrapper) may read a run straight from the queue only when no 'ignore LF' is pending and no
+    character is waiting to be reconsumed: both are resolved only on the character-by-character path"""
+    T = ctx.tables(which)
+    pe = T["helpers"].get("pop_except_from")
+    if not pe:
+        raise AnchorMissing("pop_except_from not tabulated")
+    flags = []
+    if any("self.ignore_lf" in g for pc in T["helpers"].get("get_preprocessed_char", []) for g in pc["guards"]):
+        flags.append("self.ignore_lf")
+    if any("self.reconsume" in g for pc in T["helpers"].get("get_char", []) for g in pc["guards"]):
+        flags.append("self.reconsume")
+    n = 0
+    for pc in pe:
+        if not any(a == "input.pop_except_from" for a, _ in pc["actions"]):
+            continue
+        n += 1
+        miss = [f for f in flags if pc["guards"].get(f) is not False]
+        ctx.ob(rule, "wrapper-fast-path-gate/%s/%d" % (which, n), not miss,
+               "the direct read is taken only with %s all clear" % flags if not miss else
+               "pop_except_from reads a run directly from the queue although %s may be set: the pending state is resolved only by get_char / get_preprocessed_char, so the run hides it (e.g. an LF after CR...text is swallowed later)" % miss,
+               "%s tokenizer pop_except_from" % which)
+    ctx.floor(rule, "wrapper-fast-paths/" + which, n, 1)
+    ctx.floor(rule, "wrapper-flags/" + which, len(flags), 1)
+
+
 def raw_path_gate(ctx, rule, which):
     """a state arm that reads the queue directly (front chunk / SIMD) must be gated by at least the conditions under
     which the pop_except_from wrapper itself leaves the character-by-character path"""
